@@ -16,6 +16,7 @@ func init() {
 }
 
 func ruleR3ModuleScope(c *Ctx) []Obligation {
+	r2LoopCtx = c
 	roles := vmCompRoles(c)
 	// registrar by role (as in R-scope-binding)
 	var registrar *types.Func
